@@ -175,3 +175,17 @@ unit({
         _mp('CheckMinVersionTag', static=True),
     ],
 })
+
+# --------------------------------------------------------------------------- U-STR
+SU = 'src/StringUtility.cpp'
+unit({
+    'name': 'str',
+    'typemap': {'std::string': 'str'},
+    'structs': [STR_VIEW],
+    'calls': {'tolower': N('op2_tolower', recv='none'), 'toupper': N('op2_toupper', recv='none')},
+    'functions': [
+        {'file': SU, 'qual': 'IsEqual', 'cname': 'StringUtility_IsEqual'},
+        {'file': SU, 'qual': 'IsEqualCaseInsensitive', 'cname': 'StringUtility_IsEqualCaseInsensitive'},
+        {'file': SU, 'qual': 'ConvertToUpperInPlace', 'cname': 'StringUtility_ConvertToUpperInPlace', 'rangefor': {'c': 'char'}},
+    ],
+})
